@@ -28,12 +28,12 @@ for i in ins:
         sys.stderr.write('gen.py: missing input %s\\n' % i)
         sys.exit(1)
     body += open(i).read()
-if out.endswith('.h'):
+if out.endswith(('.h', '.inc', '.def', '.tbl')):
     open(out, 'w').write('#ifndef H_%s\\n#define H_%s\\n#define VAL_%s %d\\n#endif\\n' % (name, name, name, len(body) % 97))
 elif out.endswith('.dat'):
     open(out, 'w').write('table %d\\n' % (len(body) % 83))
 else:
-    inc = ''.join('#include "%s"\\n' % os.path.basename(i) for i in ins if i.endswith('.h'))
+    inc = ''.join('#include "%s"\\n' % os.path.basename(i) for i in ins if i.endswith(('.h', '.inc', '.def', '.tbl')))
     open(out, 'w').write(inc + 'int f_%s(void) { return %d; }\\n' % (name, len(body) % 89))
 if depfile:
     open(depfile, 'w').write('%s: %s\\n' % (out, ' '.join(ins)))
@@ -48,20 +48,21 @@ def gen_project(rng, idx):
     mb = ["project('p%d', 'c')" % idx, "gen = find_program('gen.py')"]
     hdrs, libs, objs_with = [], [], []
     nh = rng.randint(1, 3)
+    suf = {h: rng.choice(['.h', '.h', '.h', '.inc', '.def', '.tbl']) for h in range(nh)}
     for h in range(nh):
         extra = ''
         if h and rng.random() < 0.5:
             extra = ", input : hdr%d, depends : hdr%d" % (h - 1, h - 1) if rng.random() < 0.5 else ", depends : hdr%d" % (h - 1)
         if 'input' in extra:
-            mb.append("hdr%d = custom_target('hdr%d', output : 'gen%d.h'%s, command : [gen, '@OUTPUT@', '@INPUT@'])" % (h, h, h, extra))
+            mb.append("hdr%d = custom_target('hdr%d', output : 'gen%d%s'%s, command : [gen, '@OUTPUT@', '@INPUT@'])" % (h, h, h, suf[h], extra))
         else:
             dep_files = ''
             if rng.random() < 0.3:
                 files['data%d.txt' % h] = 'data %d\n' % rng.randint(0, 99)
                 dep_files = ", depend_files : 'data%d.txt'" % h
-                mb.append("hdr%d = custom_target('hdr%d', output : 'gen%d.h'%s%s, command : [gen, '@OUTPUT@', '@CURRENT_SOURCE_DIR@/data%d.txt'])" % (h, h, h, extra, dep_files, h))
+                mb.append("hdr%d = custom_target('hdr%d', output : 'gen%d%s'%s%s, command : [gen, '@OUTPUT@', '@CURRENT_SOURCE_DIR@/data%d.txt'])" % (h, h, h, suf[h], extra, dep_files, h))
             else:
-                mb.append("hdr%d = custom_target('hdr%d', output : 'gen%d.h'%s, command : [gen, '@OUTPUT@'])" % (h, h, h, extra))
+                mb.append("hdr%d = custom_target('hdr%d', output : 'gen%d%s'%s, command : [gen, '@OUTPUT@'])" % (h, h, h, suf[h], extra))
         hdrs.append(h)
     if rng.random() < 0.5:
         files['config.h.in'] = '#define CONF @CONF@\n'
@@ -103,7 +104,7 @@ def gen_project(rng, idx):
     nl = rng.randint(0, 2)
     for l in range(nl):
         h = rng.choice(hdrs)
-        files['lib%d.c' % l] = '#include "gen%d.h"\n%sint lib%d(void) { return VAL_gen%d%s; }\n' % (h, '#include "config.h"\n' if conf else '', l, h, ' + CONF' if conf else '')
+        files['lib%d.c' % l] = '#include "gen%d%s"\n%sint lib%d(void) { return VAL_gen%d%s; }\n' % (h, suf[h], '#include "config.h"\n' if conf else '', l, h, ' + CONF' if conf else '')
         kind = rng.choice(['static_library', 'static_library', 'shared_library'])
         how = rng.choice(['source', 'dep'])
         if how == 'source':
@@ -136,7 +137,7 @@ def gen_project(rng, idx):
         if ctd and rng.random() < 0.5:
             src_args.append('ctd'); decls.append('int f_ctd(void);'); calls.append('f_ctd()'); ctd = False
         include_h = rng.random() < 0.7
-        body = ('#include "gen%d.h"\n' % h if include_h else '') + '\n'.join(decls) + '\nint main(void) { return 0%s%s; }\n' % (
+        body = ('#include "gen%d%s"\n' % (h, suf[h]) if include_h else '') + '\n'.join(decls) + '\nint main(void) { return 0%s%s; }\n' % (
             ''.join(' + ' + c for c in calls), (' + VAL_gen%d' % h) if include_h else '')
         kw = ''
         lw = [l for k, l in link if k == 'link_with']
